@@ -5,7 +5,7 @@ package main
 
 import "fmt"
 
-var allPopKinds = []string{"tampered", "replayed-sig", "replayed-sig", "unsigned", "foreign", "other-step-key", "earlier-step-key", "earlier-step-key", "forged-keyid", "extra-sigs", "dup-infix", "keyid-variant", "keyid-variant", "sublayout-unauthorized", "wrong-name-len", "garbage", "bad-sig-encoding", "corrupt-sig", "cert", "cert", "cert"}
+var allPopKinds = []string{"tampered", "replayed-sig", "replayed-sig", "replayed-sig", "unsigned", "foreign", "other-step-key", "earlier-step-key", "earlier-step-key", "forged-keyid", "extra-sigs", "dup-infix", "keyid-variant", "keyid-variant", "sublayout-unauthorized", "wrong-name-len", "garbage", "bad-sig-encoding", "corrupt-sig", "cert", "cert", "cert"}
 
 var alterKinds = []string{"mutate-field", "mutate-field", "mutate-field", "drop-sig", "reorder-sigs", "dup-sig", "corrupt-sig", "swap-keyids", "foreign-verifier", "empty-keyset", "wrong-key", "verifier-subset", "signed-by-others-only", "verifier-keytype", "verifier-scheme", "payload-case-dup"}
 
@@ -78,8 +78,20 @@ func init() {
 				cfg.CertOnlyPct = 20
 			}
 			cfg.NSteps = 1 + rng.Intn(3)
+			if rng.Chance(15) {
+				// REPLAY-FOCUS chains: flawless multi-step chains of legacy links whose only surplus file is
+				// content for a later step under the signature a functionary made for an earlier one - a
+				// functionary who did NOT take part in the later step, which is then exactly one link short
+				f := baseCfg(rng, "C02")
+				f.LinkDSSE, f.CertSteps, f.CleanSteps = false, false, true
+				f.NSteps = 2 + rng.Intn(2)
+				f.Thresholds = []int{1, 1, 2}
+				f.RuleStyle = 1
+				f.PopKinds, f.ExtraPerStep = []string{"replayed-sig"}, 1
+				return f
+			}
 			return cfg
-		}, "per step: threshold 0-3, 1-3 authorized keys, `threshold` honest links (one too few in a quarter of the steps) plus 0-3 extra files drawn from: tampered, unsigned, foreign key, key of another step, key of an EARLIER step of the same layout (listed and defined there), content for this step under the signature the same functionary made for an earlier step, forged key id, extra signatures, duplicate under another infix, an already counted functionary again under a letter-case variant of its key id, wrong name length, garbage, undecodable signature, corrupted signature, certificate-signed (good / expired / foreign-root / missing-intermediate chains, forged first key id), steps authorized by ONE certificate constraint alone with threshold 2-3 and that many (or one fewer) distinct certificate holders; both wrappers; compared: verdict and summary. Class = (population kinds, verdict).")
+		}, "per step: threshold 0-3, 1-3 authorized keys, `threshold` honest links (one too few in a quarter of the steps) plus 0-3 extra files drawn from: tampered, unsigned, foreign key, key of another step, key of an EARLIER step of the same layout (listed and defined there), content for this step under the signature the same functionary made for an earlier step (15% of the chains are flawless apart from exactly that, so that it decides), forged key id, extra signatures, duplicate under another infix, an already counted functionary again under a letter-case variant of its key id, wrong name length, garbage, undecodable signature, corrupted signature, certificate-signed (good / expired / foreign-root / missing-intermediate chains, forged first key id), steps authorized by ONE certificate constraint alone with threshold 2-3 and that many (or one fewer) distinct certificate holders; both wrappers; compared: verdict and summary. Class = (population kinds, verdict).")
 	}
 	props["C05"] = func(r *Runner, tier string, rng *Rng) {
 		runChains(r, rng, tierN(tier, 360, 6000), func(i int) *ChainCfg {
